@@ -10,17 +10,21 @@
 (***************************************************************************)
 EXTENDS ArenaSync, Json
 
-CONSTANT Emit
+CONSTANT Emit,
+         Cover     \* exhaustive mode: the first time any thread executes an arm of the micro-op table, print the schedule
+                   \* that got there (breadth first = a shortest one): every reachable arm is then forced on the real code
 
 VARIABLE sched
 mcvars == <<vars, sched>>
 View == vars
 
-MCInit == Init /\ sched = <<>>
+MCInit == Init /\ sched = <<>> /\ (Cover => TLCSet(8, {}))
 MCNext == \E t \in Threads :
             /\ Step(t)
             /\ sched' = Append(sched, t)
             /\ (Emit /\ AllDone') => PrintT(ToJson([sched |-> sched']))
+            /\ (Cover /\ Info(t).label \notin TLCGet(8)) =>
+                  (TLCSet(8, TLCGet(8) \cup {Info(t).label}) /\ PrintT(ToJson([cover |-> Info(t).label, sched |-> sched'])))
 MCSpec == MCInit /\ [][MCNext]_mcvars
 MCFairSpec == MCSpec /\ \A t \in Threads : WF_mcvars(Step(t) /\ sched' = Append(sched, t))
 =============================================================================
